@@ -351,7 +351,7 @@ def tie_decimal(rng):
 
 
 def gen_float_str(rng):
-    k = rng.randrange(10)
+    k = rng.randrange(11)
     sign = rng.choice(("", "", "", "-", "+"))
     lead = rng.choice(WS) if rng.random() < 0.15 else ""
     trail = rng.choice(WS) if rng.random() < 0.15 else ""
@@ -399,6 +399,16 @@ def gen_float_str(rng):
         point = rng.randint(0, n)
         x = rng.randint(-700, 400)
         return lead + sign + digits[:point] + "." + digits[point:] + ("e%d" % x if rng.random() < 0.8 else "") + trail
+    if k == 8:
+        # zero padding compensated by the exponent, around the cut-offs of dec_to_float
+        core = str(rng.randint(1, 10 ** rng.randint(1, 20)))
+        zl, zr = rng.randint(0, 420), rng.randint(0, 420)
+        if rng.random() < 0.5:
+            body, shift = "0." + "0" * zl + core, -(zl + len(core))      # value = core * 10^shift
+        else:
+            body, shift = core + "0" * zr + rng.choice(("", ".", ".000")), zr
+        target = rng.choice((rng.randint(-345, -300), rng.randint(290, 312), rng.randint(-30, 30)))
+        return lead + sign + body + "e%d" % (target - shift) + trail
     # mutation of a valid literal
     base = rng.choice(("1_000.5e-3", "12.5", "-3.25e+10", "+.5", "7.", "1e5", " 12 ", "0x10", "1__0", "inf",
                        "6.02e23", "1_0e1_0", "-0.0", "00.100", "5e-324", "1.7976931348623157e308"))
@@ -428,6 +438,9 @@ MALFORMED = ["", " ", "\t\n", "+", "-", "+-1", "--1", "1__0", "_1", "1_", "_", "
              "2.470328229206232720882843964341106861825299013071623822127928412503377536351043e-324",
              "1.7976931348623158e308", "1.7976931348623159e308", "179769313486231580793728971405303415079934132710037826936173778980444968292764750946649017977587207096330286416692887910946555547851940402630657488671505820681908902000708383676273854845817711531764475730270069855571366959622842914819860834936475292719074168444365510704342711559699508093042880177904174497791.999999999999999999",
              "179769313486231580793728971405303415079934132710037826936173778980444968292764750946649017977587207096330286416692887910946555547851940402630657488671505820681908902000708383676273854845817711531764475730270069855571366959622842914819860834936475292719074168444365510704342711559699508093042880177904174497792",
+             "0." + "0" * 400 + "1e400", "1" + "0" * 400 + "e-400", "0.00001e315", "0.0000000001e320",
+             "0.0000000001e321", "1" + "0" * 330 + "e-654", "1" + "0" * 330 + "e-655", "0." + "0" * 330 + "1e8",
+             "0." + "0" * 330 + "1e7", "4.9406564584124654e-324", "4.9406564584124655e-324",
              "9007199254740993", "9007199254740992.5", "9007199254740993.0000000001", "0.1", "0.30000000000000004"]
 
 
